@@ -200,7 +200,25 @@ struct Elem {
     static std::string mk(long x) { return "payload-of-element-" + std::to_string(x) + "-long-enough-to-live-on-the-heap"; }
     Elem(Quiet, long x): v(x), s(mk(x)) {}  // the driver's temporary: no user-code event
     Elem(long x): v(hook(x)), s(mk(x)) {}  // NOLINT  emplace_*
-    Elem(Elem&& o): v(hook(o.v)), s(std::move(o.s)) {}  // push_* (node(T&&))
+    // user code that cannot fail: the move constructor is noexcept (is_nothrow_move_constructible<Elem>), so a push of a
+    // throwing (negative) payload goes through emplace_* in the driver - same events
+    static long hook_nothrow(long x) noexcept
+    {
+        if (active()) S().emit(K_CALL, nullptr, 1);
+        return x;
+    }
+    Elem(Elem&& o) noexcept: v(hook_nothrow(o.v)), s(std::move(o.s)) {}  // push_* (node(T&&))
+    // a source type with a DESTRUCTIVE move: emplace_*(lvalue) must copy from it (forwarded as an lvalue), never steal
+    struct ESrc {
+        long v;
+        bool stolen = false;
+    };
+    Elem(const ESrc& o): v(hook(o.v)), s(mk(o.v)) {}  // NOLINT
+    Elem(ESrc&& o): v(hook(o.v)), s(mk(o.v))  // NOLINT
+    {
+        o.stolen = true;
+        o.v = BRACED;
+    }
     Elem(const Elem& o): v(hook(o.v)), s(o.s) {}
     // recognisable initializer_list constructors: chosen only if somebody LIST-initialises the element (T{args...}); the
     // driver and the library direct-initialise it (T(args...)), so the sentinel never appears
@@ -225,7 +243,14 @@ struct TrivElem {
     using Quiet = Elem::Quiet;
     TrivElem(Quiet, long x): v(x) {}
     TrivElem(long x): v(Elem::hook(x)) {}  // NOLINT
-    TrivElem(TrivElem&& o): v(Elem::hook(o.v)) {}
+    TrivElem(TrivElem&& o) noexcept: v(Elem::hook_nothrow(o.v)) {}
+    using ESrc = Elem::ESrc;
+    TrivElem(const ESrc& o): v(Elem::hook(o.v)) {}  // NOLINT
+    TrivElem(ESrc&& o): v(Elem::hook(o.v))  // NOLINT
+    {
+        o.stolen = true;
+        o.v = Elem::BRACED;
+    }
     TrivElem(const TrivElem& o): v(Elem::hook(o.v)) {}
     TrivElem(std::initializer_list<long>): v(Elem::BRACED) {}  // NOLINT
     TrivElem(std::initializer_list<TrivElem>): v(Elem::BRACED) {}  // NOLINT
@@ -241,6 +266,7 @@ struct TrivElem {
     }
 };
 static_assert(std::is_trivially_destructible<TrivElem>::value, "TrivElem must be trivially destructible");
+static_assert(std::is_nothrow_move_constructible<Elem>::value && std::is_nothrow_move_constructible<TrivElem>::value, "noexcept move");
 }}  // namespace vs::rcu
 
 namespace vstd2 {
